@@ -417,8 +417,11 @@ func Expect(m *Msg, addr []byte, cache TplCache, im InfoModel, encodedLen int) *
 			// reserved id or an unknown template); under any other known template
 			// its octets would be decoded as records the model has no values for
 			if s.RawID > 255 {
-				if t, ok := cache[CacheKey(addr, s.RawID)]; ok && t != nil && MinRecLen(t, m.Proto == "ipfix") > 0 {
-					e.Mismatched++
+				if t, ok := cache[CacheKey(addr, s.RawID)]; ok && t != nil {
+					// shorter than the shortest record of the template: all padding
+					if ml := MinRecLen(t, m.Proto == "ipfix"); ml > 0 && len(s.RawBody)+s.Pad >= ml {
+						e.Mismatched++
+					}
 				}
 			}
 		case SetData:
